@@ -167,6 +167,21 @@ def structure_part(job, r):
                     r.viol('verify:valid-file-not-trusted', 'correctly signed file not trusted rc=%#x (records %s)' % (v.rc, kinds), replay)
                 else:
                     r.count('valid_files_trusted')
+                if i % 2 == 0 and 'Un' not in kinds:
+                    # (files with unknown non-critical records are left out here: serialization writes the records the library knows)
+                    # the same object is serialized (the library rebuilds its raw image and the signed length from it): the bytes are the file's, and
+                    # afterwards the object reports the same signed range and the same trust
+                    sq = c('pubfileserialize 0 0')
+                    info2 = c('pubfileinfo 0')
+                    v2 = c('pubfileverify 0 0')
+                    r.count('valid_files_serialized_and_verified_again')
+                    if sq.rc != 0 or sq.get('hex') != raw.hex():
+                        if True:
+                            r.viol('serialize:differs-from-file', 'KSI_PublicationsFile_serialize of a parsed, valid file: rc=%#x, %s' % (sq.rc, 'other bytes' if sq.rc == 0 else 'no bytes'), replay)
+                    if info2.get('signedlen') != info.get('signedlen'):
+                        r.viol('signed-length-changes-after-serialize', 'signed data length %s after parsing, %s after KSI_PublicationsFile_serialize on the same object' % (info.get('signedlen'), info2.get('signedlen')), replay)
+                    elif v.rc == 0 and v2.rc != 0:
+                        r.viol('verify:valid-file-not-trusted-after-serialize', 'correctly signed file trusted after parsing, rc=%#x after KSI_PublicationsFile_serialize on the same object' % v2.rc, replay)
         if i < 2:
             r.sample(dict(records=kinds, variant=variant, bytes=len(raw), accepted=acc))
     pool.check_exit(None, r, sess.ex)
